@@ -102,17 +102,16 @@ theorem fact_map_writes_only_in_transform :
 
 def idx (e : String) (l : List String) : Nat := l.findIdx (· == e)
 
-/-- the transform clones its argument before it evaluates the pattern, computes the set of
-    objects owned by the clone before it writes, and only then updates and deletes (trace
-    inlined through package-local helpers) -/
+/-- the transform clones its argument (JSON round trip: Decode) before it evaluates the pattern,
+    computes the set of objects owned by the clone (Pointer) before it writes (SetMapIndex) — on the
+    trace inlined through package-local helpers, by library calls only, so that renaming or
+    regrouping the helpers does not matter -/
 theorem fact_transform_order :
     let ev := Generated.transformCallEvents
-    idx "call:validateArgs" ev < idx "call:clone" ev ∧
-    idx "call:clone" ev < idx "call:eval" ev ∧
-    idx "call:eval" ev < idx "call:collectMaps" ev ∧
-    idx "call:collectMaps" ev < idx "call:updateEntries" ev ∧
-    idx "call:updateEntries" ev < idx "call:deleteEntries" ev ∧
-    idx "call:collectMaps" ev < idx "call:SetMapIndex" ev ∧
-    ev.contains "call:Pointer" = true := by decide
+    ev.contains "call:Decode" = true ∧ ev.contains "call:eval" = true ∧
+    ev.contains "call:Pointer" = true ∧ ev.contains "call:SetMapIndex" = true ∧
+    idx "call:Decode" ev < idx "call:eval" ev ∧
+    idx "call:eval" ev < idx "call:Pointer" ev ∧
+    idx "call:Pointer" ev < idx "call:SetMapIndex" ev := by decide
 
 end Jsonata.Props.C07
